@@ -7,13 +7,21 @@ import re
 from . import tlc
 from .common import MachineryError
 
-RC_CFG = """SPECIFICATION Spec
+class _D(dict):
+    def __missing__(self, k):
+        if k == 'kf4':
+            return 'FALSE'
+        raise KeyError(k)
+
+
+RC_CFG_T = """SPECIFICATION Spec
 CONSTANTS
   NRcpt = %(nr)d
   Lmtp = %(lmtp)s
   Pipelining = %(pipe)s
   NMsg = %(nmsg)d
   KF_RsetBypass = %(kf3)s
+  KF_RcptBeforeMail = %(kf4)s
   KF_FlushOutside = %(kf1)s
   KF_FirstRcptClass = %(kf2)s
 INVARIANT C11_TotalResult
@@ -27,6 +35,13 @@ INVARIANT C10_QueueDrained
 %(emit)s
 CHECK_DEADLOCK FALSE
 """
+
+class _Tmpl(str):
+    def __mod__(self, d):
+        return str.__mod__(self, _D(d))
+
+
+RC_CFG = _Tmpl(RC_CFG_T)
 
 _REC = re.compile(r'\[([^\[\]]*)\]')
 
@@ -98,6 +113,8 @@ def relayclient_design_jobs(wd, kf_first_in_code):
     jobs.append({'name': 'RelayClient intended design, LMTP, 3 rcpt', 'module': 'RelayClient', 'cfg': cfg('rcd_b.cfg', nr=3, lmtp='TRUE')})
     jobs.append({'name': 'deviation KF_FlushOutside (D12 as found): TLC must find the unbounded wait', 'module': 'RelayClient',
                  'cfg': cfg('rcd_kf1.cfg', kf1='TRUE'), 'expect_violation': ['C14_Bounded']})
+    jobs.append({'name': 'deviation KF_RcptBeforeMail (seeded change C06c-m2): TLC must find the refused sender reported with the class of the 503s',
+                 'module': 'RelayClient', 'cfg': cfg('rcd_kf4.cfg', kf4='TRUE'), 'expect_violation': ['C11_MailVerdict', 'C11_Class']})
     jobs.append({'name': 'deviation KF_FirstRcptClass (D28%s): TLC must find the recipient reported with the wrong class'
                          % (' as found' if not kf_first_in_code else ', the code as it is'), 'module': 'RelayClient',
                  'cfg': cfg('rcd_kf2.cfg', kf2='TRUE'), 'expect_violation': ['C11_OwnClass']})
